@@ -71,6 +71,9 @@ def run(ctx):
     res.extra["simplex_helpers"] = sorted(simplex_helpers)
     res.extra["face_helpers"] = sorted(face_helpers)
 
+    global FACE_CONSUMERS
+    FACE_CONSUMERS = face_consumers(sc_methods, face_helpers)
+    res.extra["face_consumer_helpers"] = {k: v for k, v in FACE_CONSUMERS.items()}
     n_sites = 0
     for m, f in sorted(sc_methods.items()):
         if m in simplex_helpers or m in face_helpers:
@@ -78,7 +81,7 @@ def run(ctx):
         if ctx.only and ctx.only != f.qualname:
             continue
         n_sites += check_method(repo, eng, res, f, simplex_helpers, face_helpers)
-    res.floor("simplex/face insertion sites in public methods", n_sites, 6 if not ctx.only else 0)
+    res.floor("simplex/face insertion sites in public methods", n_sites, 3 if not ctx.only else 0)
     if ctx.only:
         return res
 
@@ -92,6 +95,28 @@ def run(ctx):
 
 
 # ----------------------------------------------------------------------------------------------
+FACE_CONSUMERS = {}
+
+
+def face_consumers(sc_methods, face_helpers):
+    """Private methods that take a collection of faces and insert each through the face helper:
+    name -> index of that parameter (self excluded)."""
+    out = {}
+    for m, f in sc_methods.items():
+        if not (m.startswith("_") and not m.startswith("__")) or m in face_helpers:
+            continue
+        selfn = f.params[0]
+        for st in own_statements(f.node):
+            if isinstance(st, (ast.For, ast.AsyncFor)) and isinstance(st.target, ast.Name):
+                it = base_name(st.iter)
+                if it in f.params[1:]:
+                    for s in own_statements(st):
+                        for c in _calls(s):
+                            if _is_self_call(c, selfn, face_helpers) and c.args and base_name(c.args[0]) == st.target.id:
+                                out[m] = f.params[1:].index(it)
+    return out
+
+
 def insertion_sites(f, simplex_helpers, face_helpers):
     """(stmt, kind, value-name, key-name|None) for every insertion in method f."""
     selfn = f.params[0]
@@ -251,8 +276,25 @@ def check_close(res, cfg, f, st, vname, selfn, face_helpers, where):
     targets = {EXIT} | ({loops[-1]} if loops else set())
 
     sched_names = set()
+    direct = set()
+
+    def produces(expr):
+        for c in ast.walk(expr):
+            if isinstance(c, ast.Call):
+                nm = c.func.attr if isinstance(c.func, ast.Attribute) else getattr(c.func, "id", None)
+                if nm in FACE_PRODUCERS and c.args and base_name(c.args[0]) == vname:
+                    return True
+        return False
 
     def is_sched(n):
+        # self._consume(self._subfaces(v)): scheduled and consumed by one statement
+        if isinstance(n, ast.AST):
+            for c in own_nodes(n):
+                if isinstance(c, ast.Call) and _is_self_call(c, selfn, set(FACE_CONSUMERS)):
+                    j = FACE_CONSUMERS[c.func.attr]
+                    if j < len(c.args) and produces(c.args[j]):
+                        direct.add(n)
+                        return True
         if not isinstance(n, (ast.Assign, ast.AugAssign)):
             return False
         tgt = n.targets[0] if isinstance(n, ast.Assign) else n.target
@@ -277,6 +319,12 @@ def check_close(res, cfg, f, st, vname, selfn, face_helpers, where):
         return
     # the scheduled collection is consumed by a guarded face-insertion loop on every path to EXIT
     def is_face_loop(n):
+        if isinstance(n, ast.AST) and not isinstance(n, (ast.For, ast.AsyncFor)):
+            for c in own_nodes(n):
+                if isinstance(c, ast.Call) and _is_self_call(c, selfn, set(FACE_CONSUMERS)):
+                    j = FACE_CONSUMERS[c.func.attr]
+                    if j < len(c.args) and base_name(c.args[j]) in sched_names:
+                        return True
         if not isinstance(n, (ast.For, ast.AsyncFor)):
             return False
         it = base_name(n.iter) if not isinstance(n.iter, ast.Name) else n.iter.id
@@ -292,6 +340,8 @@ def check_close(res, cfg, f, st, vname, selfn, face_helpers, where):
 
     ok2 = True
     for sch in scheds:
+        if sch in direct:
+            continue
         if EXIT in cfg.reachable(sch, avoid=is_face_loop):
             ok2 = False
     res.inst("S-CLOSE", where + ": scheduled faces are inserted on every path to the normal exit", ok2)
@@ -393,6 +443,13 @@ def check_sup(repo, res, sc_methods):
             a = st.value.args[0]
             if isinstance(a, ast.Subscript) and is_self_table(a.value, selfn, "_edge") and isinstance(a.slice, ast.Name) and a.slice.id == idx and isinstance(st.targets[0], ast.Name):
                 qname, qvar = st.value.func.attr, st.targets[0].id
+    inline_loop = None
+    if qname is None:
+        for st in own_statements(f.node):
+            if isinstance(st, ast.For) and isinstance(st.iter, ast.Call) and _is_self_call(st.iter, selfn) and st.iter.args:
+                a = st.iter.args[0]
+                if isinstance(a, ast.Subscript) and is_self_table(a.value, selfn, "_edge") and isinstance(a.slice, ast.Name) and a.slice.id == idx:
+                    qname, inline_loop = st.iter.func.attr, st
     ok = qname is not None
     res.inst("S-UP", "remove_simplex_id queries the supersets of the stored simplex", ok)
     if not ok:
@@ -400,7 +457,7 @@ def check_sup(repo, res, sc_methods):
         return
 
     def is_sup_loop(n):
-        if not (isinstance(n, ast.For) and isinstance(n.iter, ast.Name) and n.iter.id == qvar and isinstance(n.target, ast.Name)):
+        if not (isinstance(n, ast.For) and isinstance(n.target, ast.Name) and ((isinstance(n.iter, ast.Name) and n.iter.id == qvar) or n is inline_loop)):
             return False
         return any(_is_self_call(c, selfn, removers) and c.args and isinstance(c.args[0], ast.Name) and c.args[0].id == n.target.id for s in own_statements(n) for c in _calls(s))
 
@@ -500,6 +557,16 @@ def check_faces(repo, res, sc_methods):
                 for c in ast.walk(n):
                     if isinstance(c, ast.Call) and isinstance(c.func, ast.Name) and c.func.id == "combinations" and len(c.args) == 2 and isinstance(c.args[1], ast.Name) and c.args[1].id == n.target.id:
                         ok = True
+    for n in ast.walk(f.node):
+        if isinstance(n, (ast.ListComp, ast.GeneratorExp)) and len(n.generators) == 2:
+            g0, g1 = n.generators
+            if isinstance(g0.iter, ast.Call) and getattr(g0.iter.func, "id", None) == "range" and isinstance(g0.target, ast.Name) and isinstance(g1.iter, ast.Call) and getattr(g1.iter.func, "id", None) == "combinations" and len(g1.iter.args) == 2:
+                a = g0.iter.args
+                r = g1.iter.args[1]
+                if len(a) == 3 and isinstance(a[1], ast.Constant) and a[1].value == 2 and isinstance(a[2], ast.UnaryOp) and isinstance(a[2].operand, ast.Constant) and a[2].operand.value == 1 and isinstance(r, ast.BinOp) and isinstance(r.op, ast.Sub) and isinstance(r.left, ast.Name) and r.left.id == g0.target.id and isinstance(r.right, ast.Constant) and r.right.value == 1:
+                    ok = True
+                if len(a) == 2 and isinstance(a[0], ast.Constant) and a[0].value == 2 and isinstance(r, ast.Name) and r.id == g0.target.id:
+                    ok = True
     res.inst("S-FACES", "_subfaces(all=True) enumerates combinations of every size from len-1 down to 2", ok)
     if not ok:
         res.add(mk_finding(PROP, "S-FACES", f, f.node, "_subfaces does not enumerate the faces of every size from len-1 down to 2 (range(size, 2, -1) with combinations(simplex, n - 1)); some faces of an added simplex would be missing", role="range"))
